@@ -267,6 +267,8 @@ struct Out {
     last_deadline: Option<tokio::time::Instant>,
     closed: Option<CloseKind>,
     write_fail: bool,
+    /// The peer has stopped reading: writes stay pending for ever.
+    write_block: bool,
     released_total: u64,
     /// The next read fails once with this kind; the stream itself goes on.
     read_err_once: Option<io::ErrorKind>,
@@ -341,6 +343,11 @@ impl<'a> TermIo<'a> {
     /// From now on client writes fail with EPIPE.
     pub fn fail_writes(&mut self) {
         self.out.write_fail = true;
+    }
+
+    /// From now on the peer does not read any more: client writes stay pending for ever.
+    pub fn block_writes(&mut self) {
+        self.out.write_block = true;
     }
 
     pub fn note(&mut self, s: impl Into<String>) {
@@ -539,6 +546,7 @@ pub fn sim_conn(
             closed: None,
             read_err_once: None,
             write_fail: false,
+            write_block: false,
             released_total: 0,
         },
         terminal: Some(terminal),
@@ -721,6 +729,11 @@ impl AsyncWrite for SimConn {
         buf: &[u8],
     ) -> Poll<io::Result<usize>> {
         let mut st = self.st.lock().unwrap();
+        if st.out.write_block {
+            // (no waker is kept: nothing will ever make room)
+            st.log(Ev::WriteSpurious);
+            return Poll::Pending;
+        }
         if st.out.write_fail {
             st.fired.write_err += 1;
             st.log(Ev::WriteErr);
